@@ -84,9 +84,9 @@ theorem errOfCode_documented (c : Nat) (h : c ≠ 0) : Documented (errOfCode c) 
   · exact Or.inr (Or.inr (Or.inr (Or.inr (Or.inr ⟨_, rfl⟩))))
 
 theorem ReaderSaid.documented {r r' : Reader} {e : Err} (h : ReaderSaid r r' e) : Documented e := by
-  rcases h with ⟨h, _⟩ | ⟨j, mx, ec, _, h⟩
+  rcases h with ⟨h, _⟩ | ⟨j, mx, ec, _, hec, h⟩
   · exact Or.inr (Or.inr (Or.inr (Or.inr (Or.inl h))))
-  · rw [h]; exact errOfCode_documented _ (by split <;> omega)
+  · rw [h]; exact errOfCode_documented _ hec
 
 theorem Documented.ne_panic {e : Err} (h : Documented e) :
     e ≠ .panic ∧ e ≠ .cfg ∧ e ≠ .outOfBuffer ∧ e ≠ .endOfBuffer ∧ e ≠ .litLen ∧ e ≠ .matchLen ∧
@@ -182,10 +182,10 @@ theorem errOK_of_room (s : Parser) (op : POp) (h : Room s.buf) : ErrOK s op (opE
       readFrom_master h1 (r := r) (b' := (s.buf.readFrom r).1) (r' := (s.buf.readFrom r).2.1)
         (n := (s.buf.readFrom r).2.2.1) (e := (s.buf.readFrom r).2.2.2) rfl
     show (s.buf.readFrom r).2.2.2 = .full ∨ ReaderSaid r (s.buf.readFrom r).2.1 (s.buf.readFrom r).2.2.2
-    rcases hcase with ⟨a1, _⟩ | ⟨a1, _, a3, _⟩ | ⟨mx, ec, a1, a2, _⟩
+    rcases hcase with ⟨a1, _⟩ | ⟨a1, _, a3, _⟩ | ⟨mx, ec, a1, hec, a2⟩
     · exact Or.inl a1
     · exact Or.inr (Or.inl ⟨a1, a3⟩)
-    · refine Or.inr (Or.inr ⟨pre.length, mx, ec, ?_, a2⟩)
+    · refine Or.inr (Or.inr ⟨pre.length, mx, ec, ?_, hec, a2⟩)
       rw [a1, List.drop_left]
   | parse flags =>
     show (s.parse flags).2.2.1 = .ok ∨ (s.parse flags).2.2.1 = .empty
